@@ -133,10 +133,56 @@ def staleEcNext (o : Obs) (nVid : Nat) (prev : List (Nat × Nat)) (justDisc : Op
     | some s => (List.range (nVid + 1)).filterMap fun vid => if (o.ecMapServers vid).contains s then some (vid, s) else none
   (prev ++ added).eraseDups.filter fun (vid, s) => (o.ecMapServers vid).contains s && !(o.ecHolders vid).contains s
 
+/-! ## what the servers said (inputs only) and what the master was told at registration -/
+
+/-- `told` = the (server, vid) pairs of the volumes each connected server holds according to its own
+    messages: a full heartbeat replaces the server's set, an incremental message adds / removes,
+    a disconnect forgets the server.  Computed from the INPUTS of the trace lines only. -/
+def toldNext (told : List (Nat × Nat)) (up : Nat → Bool) (op : Op) : List (Nat × Nat) :=
+  match op with
+  | .full s vs => if !up s then told else (told.filter fun e => e.1 != s) ++ vs.map fun v => (s, v.id)
+  | .inc s ns ds =>
+    if !up s then told else
+    let t1 := told.filter fun e => !(e.1 == s && ds.any fun v => v.id == e.2)
+    t1 ++ (ns.filter fun v => !t1.contains (s, v.id)).map fun v => (s, v.id)
+  | .disc s => told.filter fun e => e.1 != s
+  | _ => told
+
+/-- servers that (by their own messages) hold `vid` -/
+def toldServers (told : List (Nat × Nat)) (vid : Nat) : List Nat :=
+  (told.filter fun e => e.2 = vid).map (·.1)
+
+/-- all (server, vid) pairs registered as normal volumes in an observation -/
+def Obs.holderPairs (o : Obs) : List (Nat × Nat) :=
+  o.disks.flatMap fun d => d.vols.map fun (v, _, _, _) => (d.s, v)
+
+/-- `bornOver` = replicas (server, vid) whose registered size has been at or over the limit ever since
+    the server registered them (the master was told "oversized" at registration time — no refresh round
+    is needed to know): the replicas at/over the limit now that were in the set before or were not
+    registered in the previous observation. -/
+def bornOverNext (o : Obs) (limit : Nat) (prevHolders bornOver : List (Nat × Nat)) : List (Nat × Nat) :=
+  o.disks.flatMap fun d => d.vols.filterMap fun (v, size, _, _) =>
+    if size ≥ limit && (bornOver.contains (d.s, v) || !prevHolders.contains (d.s, v)) then some (d.s, v) else none
+
+/-- volume ids offered for writes although a registered replica is in `bornOver` -/
+def offeredBornOver (o : Obs) (bornOver : List (Nat × Nat)) : List Nat :=
+  (o.layouts.flatMap fun l => l.wr.filter fun vid => bornOver.any fun e => e.2 = vid).eraseDups
+
+/-- the class of an offered-although-registered-oversized volume is fixed when the violation appears:
+    `true` = the volume id was already offered before the oversized replica registered (the oversized
+    replica JOINED a writable volume), `false` = it was put into the writables afterwards (the oversized
+    registration was not remembered). -/
+def overClsNext (offered : List Nat) (prevWr : List Nat) (prev : List (Nat × Bool)) : List (Nat × Bool) :=
+  offered.map fun vid =>
+    match prev.find? fun e => e.1 = vid with
+    | some e => e
+    | none => (vid, prevWr.contains vid)
+
 /-- C11 judge: the list of violated facts (kind, detail) in an observation.
     `knownFull` = vids that were full at the last refresh round (the master has processed them);
-    `staleEc` = see `staleEcNext`. -/
-def judgeC11 (o : Obs) (limit : Nat) (asMin : Bool) (nVid : Nat) (knownFull : List Nat) (staleEc : List (Nat × Nat)) : List (String × String) :=
+    `staleEc` = see `staleEcNext`; `told` = see `toldNext` (`none`: not tracked); `overCls` = see `overClsNext`. -/
+def judgeC11 (o : Obs) (limit : Nat) (asMin : Bool) (nVid : Nat) (knownFull : List Nat) (staleEc : List (Nat × Nat))
+    (told : List (Nat × Nat) := o.holderPairs) (overCls : List (Nat × Bool) := []) : List (String × String) :=
   let w := o.layouts.flatMap fun l => l.wr.flatMap fun vid =>
     let locs := ((l.locs.find? fun e => e.1 = vid).map (·.2)).getD []
     let n := locs.length
@@ -145,6 +191,16 @@ def judgeC11 (o : Obs) (limit : Nat) (asMin : Bool) (nVid : Nat) (knownFull : Li
     (if n == cc || (asMin && n > cc) then [] else [("writable-without-enough-copies", s!"vid={vid},locations={n},copies={cc}")])
     ++ (if hs.any (fun (_, _, ro) => ro) then [("writable-with-readonly-replica", s!"vid={vid}")] else [])
     ++ (if knownFull.contains vid && o.full limit vid then [("ensureCorrectWritables/full-volume-offered-again", s!"vid={vid}")] else [])
+    -- the size-limit conjunct for replicas the master was told to be oversized when they registered
+    ++ (match overCls.find? fun e => e.1 = vid with
+        | some (_, true) => [("ensureCorrectWritables/oversized-replica-joins-offered-volume", s!"vid={vid}")]
+        | some (_, false) => [("RegisterVolume/oversized-not-remembered", s!"vid={vid}")]
+        | none => [])
+    -- the replica-count conjunct against what the SERVERS report (a server whose last message says it
+    -- no longer holds the volume is not a replica, whatever the master still has registered)
+    ++ (let tn := (toldServers told vid).length
+        if (n == cc || (asMin && n > cc)) && !(tn == cc || (asMin && tn > cc)) then
+          [("writable-without-enough-reported-copies", s!"vid={vid},copies={cc}")] else [])
   let q := (List.range nVid).flatMap fun i =>
     let vid := i + 1
     let got := ((o.lookups.find? fun e => e.1 = vid).map (·.2)).getD []
@@ -161,6 +217,13 @@ def judgeC11 (o : Obs) (limit : Nat) (asMin : Bool) (nVid : Nat) (knownFull : Li
      else if got.isEmpty && emptyEntry && hn.isEmpty then
        [("SetVolumeUnavailable/empty-location-list-hides-ec-shards", s!"vid={vid},registered={want}")]
      else [("lookup-misses-registered-server", s!"vid={vid},got={got},registered={want}")])
+    -- lookups against what the SERVERS report: a server still registered (and returned) although its
+    -- last message says it does not hold the volume, or a reporting server that is not returned
+    ++ (let tn := toldServers told vid
+        let gone := got.filter fun x => hn.contains x && !tn.contains x
+        let unseen := tn.filter fun x => !got.contains x && !hn.contains x
+        (gone.map fun x => ("lookup-returns-server-that-reported-volume-gone", s!"vid={vid},server={x}"))
+        ++ (unseen.map fun x => ("lookup-misses-reporting-server", s!"vid={vid},server={x}")))
   w ++ q
 
 /-! ## Prop-level statements over the model state -/
